@@ -90,7 +90,7 @@ func (e *Engine) verifyFunc(fn *ssa.Function) (u *Unit) {
 		u.addValue(p.Name(), n)
 		if lk := lockInside(p.Type(), 0); lk != "" {
 			// a mutex passed by value is another mutex: what the callee locks excludes nobody who locks the original
-			u.oblige(fr.obName("lock-copy", p.Name()), "lock", []string{"C20"}, "true", "false", fr.pos(fn.Pos()),
+			u.oblige(fr.obName("lock-copy", p.Name()), "lock", []string{"C19", "C20"}, "true", "false", fr.pos(fn.Pos()),
 				"parameter "+p.Name()+" ("+types.TypeString(p.Type(), nil)+") carries "+lk+" by value: the function locks a copy")
 		}
 		if i == 0 && fn.Signature.Recv() != nil {
